@@ -56,6 +56,8 @@ def gen_dataset(rng, k):
     ds["unit"] = r2.choice(["ns", "ns", "us", "ms", "s"])
     ds["dtype"] = r2.choice(["float64", "float64", "float32", "int64", "object"])
     ds["stamp"] = r2.choice(["ts", "ts", "py"])
+    # the zone the requested limits are WRITTEN in (same instants): the data's own zone or another one
+    ds["stamp_tz"] = r2.choice([None, None, "UTC", "Asia/Tokyo", "America/Los_Angeles", "Asia/Kolkata"])
     return ds
 
 
@@ -132,7 +134,7 @@ def run_impl(ds, call):
     from opendsm.eemeter.common import transform
     data = build_frame(ds)
     before = data.copy(deep=True)
-    tz = ds["tz"]
+    tz = ds.get("stamp_tz") or ds["tz"]
     how = ds.get("stamp", "ts")
     try:
         if call["which"] == "baseline":
@@ -251,6 +253,9 @@ def oracle(ds, call, obs):
             want = [t for t in side if (t >= target if base else t <= target)]
             if want != ots:
                 fails.append((dict(sig0, broken="window truncated"), "rows inside the window are missing"))
+        elif not side:
+            # a non-empty selection although no row lies on the permitted side of the limit: reported as a leak above
+            pass
         else:
             best = min(abs(t - target) for t in side)
             edge = min(ots) if base else max(ots)
@@ -334,6 +339,7 @@ def process(run, items):
         run.dist("outcome", obs["kind"] if obs["kind"] == "ok" else obs["cls"])
         run.dist("branch", classify(call, obs)[:6])
         run.dist("representation", "%s/%s/%s" % (ds.get("unit"), ds.get("dtype"), ds.get("stamp")))
+        run.dist("zone of the requested limits", "data zone" if not ds.get("stamp_tz") or ds["stamp_tz"] == ds["tz"] else "other zone")
         run.dist("index_kind", ds["kind"])
         for sig, msg in oracle(ds, call, obs):
             run.violation(sig, "C20 %s: %s" % (call["which"], msg), case={"dataset": ds, "call": call},
